@@ -7,6 +7,7 @@ import (
 	"fmt"
 	"strings"
 	"testing"
+	"verif/fold"
 
 	"github.com/alicebob/sqlittle"
 	sdb "github.com/alicebob/sqlittle/db"
@@ -448,7 +449,7 @@ func run(r *vt.Run, t vt.TB, s spec) {
 						got, err := lo.Tables()
 						var want []string
 						for _, row := range query("SELECT name FROM sqlite_master WHERE type='table' ORDER BY rowid") {
-							want = append(want, strings.ToLower(string(row[0].B)))
+							want = append(want, fold.Lower(string(row[0].B)))
 						}
 						if err != nil || strings.Join(got, ",") != strings.Join(want, ",") {
 							fail("stale-schema", "low-level Tables() = %v, %v; SQLite has %v", got, err, want)
@@ -457,7 +458,7 @@ func run(r *vt.Run, t vt.TB, s spec) {
 						idx, err := lo.Indexes()
 						want = nil
 						for _, row := range query("SELECT name FROM sqlite_master WHERE type='index' ORDER BY rowid") {
-							want = append(want, strings.ToLower(string(row[0].B)))
+							want = append(want, fold.Lower(string(row[0].B)))
 						}
 						if err != nil || strings.Join(idx, ",") != strings.Join(want, ",") {
 							fail("stale-schema", "low-level Indexes() = %v, %v; SQLite has %v", idx, err, want)
